@@ -190,6 +190,11 @@ func c10(c *Ctx) {
 			}
 			serves := hi%3 == 2 // this KDC serves the renewal of a just-expired service ticket (kdc.LenientRenewUsage)
 			kk.LenientRenewUsage = serves
+			var aheadMs int64
+			if hi%4 == 1 {
+				aheadMs = 1500 // this KDC's clock runs 1.5 s ahead: a ticket is not yet valid when it arrives
+				kk.ClockAhead = time.Duration(aheadMs) * time.Millisecond
+			}
 			if err := kk.Serve(); err != nil {
 				return
 			}
@@ -275,7 +280,7 @@ func c10(c *Ctx) {
 				// the model is evaluated at t0; drop the history if a boundary of the entry that was current
 				// for this SPN before the call lies within 250 ms of the call
 				if prev, ok := current[spn]; ok {
-					bounds := []time.Time{prev.End, prev.Renew}
+					bounds := []time.Time{prev.End, prev.Renew, prev.Start}
 					if serves {
 						bounds = append(bounds, prev.End.Add(time.Second)) // the KDC's tolerance for the expired ticket
 					}
@@ -327,7 +332,7 @@ func c10(c *Ctx) {
 				rn = h.renew
 			}
 			if !skipModel {
-				if !serves {
+				if !serves && aheadMs == 0 {
 					c.Case("client_run", jv.L(jv.I(int64(h.life)), jv.I(int64(rn)), jv.L(jops...)), jv.Ok(jobs...))
 				}
 				sv := 0
@@ -335,7 +340,10 @@ func c10(c *Ctx) {
 					sv = 1
 					c.Count("history:kdc-serves-renewals")
 				}
-				c.Case("client_pairs", jv.L(jv.I(int64(h.life)), jv.I(int64(rn)), jv.I(int64(sv)), jv.L(jops...)), jv.Ok(jpairs...))
+				if aheadMs != 0 {
+					c.Count("history:kdc-clock-ahead")
+				}
+				c.Case("client_pairs", jv.L(jv.I(int64(h.life)), jv.I(int64(rn)), jv.I(int64(sv)), jv.I(aheadMs), jv.L(jops...)), jv.Ok(jpairs...))
 				c.Count("history:compared")
 			} else {
 				c.Count("history:dropped-boundary")
